@@ -17,7 +17,7 @@ ID = "C10"
 LEVEL = "exploration"
 TECHNIQUE = "exhaustive over graphs <= 3x3 x kinds x endpoint pairs x every shortest path x option combinations + Hypothesis up to 12x12; oracle = independent renderer (pixel-for-pixel and character-for-character) and round trip through from_pixels/from_ascii"
 RULE = (
-    "case = (connection bits, kind, solution/endpoints, show_endpoints, show_solution). quick: all graphs on shapes with <= 7 lattice "
+    "case = (connection bits, kind, solution/endpoints, sequence of (show_endpoints, show_solution) combinations rendered on the same object). quick: all graphs on shapes with <= 7 lattice "
     "edges completely, every 3x3 graph with 6 seeded endpoint pairs; thorough: everything <= 3x3. random: graphs up to 12x12 (20x20 "
     "thorough), square and oblong. Non-trivial = >= 1 connection, >= 1 wall and a solution of >= 3 cells; distinct by case digest."
 )
@@ -30,55 +30,64 @@ OPTS = [(True, True), (True, False), (False, False)]
 
 
 def check(case: dict):
+    """one maze object, rendered with a sequence of option combinations (a later rendering must not depend on an earlier one)"""
     g, kind, sol = case["g"], case["kind"], case.get("sol")
-    se, ss = case["opts"]
     r, c = g["r"], g["c"]
     m = L.make_kind(kind, g, sol)
-    sig = f"C10:{kind}:({'T' if se else 'F'},{'T' if ss else 'F'})"
     start = tuple(sol[0]) if kind != "lattice" else None
     end = tuple(sol[-1]) if kind != "lattice" else None
-    want = M.render(g, start, end, sol if kind == "solved" else None, se, ss)
-    img = call(f"{sig}:as_pixels", m.as_pixels, show_endpoints=se, show_solution=ss)
-    img = np.asarray(img)
-    require(img.shape == (2 * r + 1, 2 * c + 1, 3), f"{sig}:pixels-shape", f"{img.shape} for {r}x{c}")
-    diff = M.first_pixel_diff(M.img_to_lists(img), want)
-    require(diff is None, f"{sig}:pixels-differ", f"{diff}; bits={g['cl']} {r}x{c} sol={sol}")
-    txt = call(f"{sig}:as_ascii", m.as_ascii, show_endpoints=se, show_solution=ss)
-    want_txt = M.render_ascii(want)
-    require(txt == want_txt, f"{sig}:ascii-differs", f"got\n{txt}\nexpected\n{want_txt}")
-    labels = [kind, f"opts:{int(se)}{int(ss)}", "oblong" if r != c else "square"]
-    if se and ss:
-        cls = L.KIND_CLASS[kind]
-        for nm, fn in (("from_pixels", lambda: cls.from_pixels(img)), ("from_ascii", lambda: cls.from_ascii(txt))):
-            back = call(f"{sig}:{nm}", fn)
-            require(type(back) is cls, f"{sig}:{nm}:kind", f"read back {type(back).__name__}, expected {cls.__name__}")
-            require(L.g_of(back) == g, f"{sig}:{nm}:connections", f"read back {L.g_of(back)} from {g}")
-            if kind != "lattice":
-                require(tuple(int(x) for x in back.start_pos) == start and tuple(int(x) for x in back.end_pos) == end,
-                        f"{sig}:{nm}:endpoints", f"read back {back.start_pos}->{back.end_pos}, expected {start}->{end}")
-            if kind == "solved":
-                require(L.as_cells(back.solution) == [tuple(q) for q in sol], f"{sig}:{nm}:solution",
-                        f"read back {L.as_cells(back.solution)}, expected {sol}; bits={g['cl']}")
-        labels.append("round-trip")
+    labels = [kind, "oblong" if r != c else "square", f"seq{len(case['seq'])}"]
+    for step, (se, ss) in enumerate(case["seq"]):
+        sig = f"C10:{kind}:({'T' if se else 'F'},{'T' if ss else 'F'})"
+        hist = f"; rendered before on the same object: {case['seq'][:step]}" if step else ""
+        want = M.render(g, start, end, sol if kind == "solved" else None, se, ss)
+        img = call(f"{sig}:as_pixels", m.as_pixels, show_endpoints=se, show_solution=ss)
+        img = np.asarray(img)
+        require(img.shape == (2 * r + 1, 2 * c + 1, 3), f"{sig}:pixels-shape", f"{img.shape} for {r}x{c}")
+        diff = M.first_pixel_diff(M.img_to_lists(img), want)
+        require(diff is None, f"{sig}:pixels-differ", f"{diff}; bits={g['cl']} {r}x{c} sol={sol}{hist}")
+        txt = call(f"{sig}:as_ascii", m.as_ascii, show_endpoints=se, show_solution=ss)
+        want_txt = M.render_ascii(want)
+        require(txt == want_txt, f"{sig}:ascii-differs", f"got\n{txt}\nexpected\n{want_txt}{hist}")
+        labels.append(f"opts:{int(se)}{int(ss)}")
+        if se and ss:
+            cls = L.KIND_CLASS[kind]
+            for nm, fn in (("from_pixels", lambda: cls.from_pixels(img)), ("from_ascii", lambda: cls.from_ascii(txt))):
+                back = call(f"{sig}:{nm}", fn)
+                require(type(back) is cls, f"{sig}:{nm}:kind", f"read back {type(back).__name__}, expected {cls.__name__}")
+                require(L.g_of(back) == g, f"{sig}:{nm}:connections", f"read back {L.g_of(back)} from {g}")
+                if kind != "lattice":
+                    require(tuple(int(x) for x in back.start_pos) == start and tuple(int(x) for x in back.end_pos) == end,
+                            f"{sig}:{nm}:endpoints", f"read back {back.start_pos}->{back.end_pos}, expected {start}->{end}")
+                if kind == "solved":
+                    require(L.as_cells(back.solution) == [tuple(q) for q in sol], f"{sig}:{nm}:solution",
+                            f"read back {L.as_cells(back.solution)}, expected {sol}; bits={g['cl']}")
+            labels.append("round-trip")
     E = M.n_edges(g)
     nt = 0 < E < len(M.lattice_edges(r, c)) and kind != "lattice" and len(sol) >= 3
     return {"nt": nt, "labels": labels}
 
 
+PERMS = [list(p) for p in __import__("itertools").permutations([list(o) for o in OPTS])]
+
+
 def _cases_for_graph(g, pairs_limit, rnd):
     a = M.adj(g)
     cells = sorted(a)
-    for opts in OPTS:
-        yield {"g": g, "kind": "lattice", "opts": list(opts)}
+    k = [0]
+
+    def seq():
+        k[0] += 1
+        return PERMS[(k[0] + rnd.randrange(6)) % 6]
+
+    yield {"g": g, "kind": "lattice", "seq": seq()}
     pairs = [(s, e) for s in cells for e in cells if s != e]
     if pairs_limit is not None and len(pairs) > pairs_limit:
         pairs = rnd.sample(pairs, pairs_limit)
     for s, e in pairs:
-        for opts in OPTS:
-            yield {"g": g, "kind": "targeted", "sol": [list(s), list(e)], "opts": list(opts)}
+        yield {"g": g, "kind": "targeted", "sol": [list(s), list(e)], "seq": seq()}
         for p in M.all_shortest_paths(a, s, e, cap=8):
-            for opts in OPTS:
-                yield {"g": g, "kind": "solved", "sol": [list(q) for q in p], "opts": list(opts)}
+            yield {"g": g, "kind": "solved", "sol": [list(q) for q in p], "seq": seq()}
 
 
 def _exhaustive(quick):
@@ -110,7 +119,8 @@ def _random(draw, hi):
         e = [draw(st.integers(0, r - 1)), draw(st.integers(0, c - 1))]
         if s != e:
             sol = [s, e]
-    return {"g": g, "kind": kind, "sol": sol, "opts": list(draw(st.sampled_from(OPTS)))}
+    seq = draw(st.lists(st.sampled_from([list(o) for o in OPTS]), min_size=1, max_size=4))
+    return {"g": g, "kind": kind, "sol": sol, "seq": seq}
 
 
 def subs(tier: str):
